@@ -4,6 +4,7 @@ mod clock;
 mod codec;
 mod curves;
 mod faults;
+mod ffiyield;
 mod fixtures;
 mod genp;
 mod hist;
